@@ -1365,6 +1365,10 @@ def cell_of(v):
         X = unwrap(X) if X is not None else None
         if isinstance(X, CallSym) and X.meth == "row" and len(X.args) == 1:
             return X.recv, SubSym(f"{v.base.path}[0]", None, v.base, 0), X.args[0]          # for j, value in enumerate(frame.row(i))
+    if isinstance(v, SubSym) and isinstance(v.base, SubSym):
+        X = unwrap(v.base.base, names=("list", "tuple"))
+        if isinstance(X, CallSym) and X.meth in ("rows", "iter_rows") and not X.args and isinstance(X.recv, Sym):
+            return X.recv, v.key, v.base.key                    # frame.rows()[i][j]
     if isinstance(v, SubSym) and isinstance(v.base, SubSym) and v.base.key == 1 and isinstance(v.base.base, ElemSym):
         X = _enumerated(v.base.base)
         X = unwrap(X) if X is not None else None
@@ -1469,6 +1473,19 @@ def _closure_text(ctx: Ctx, rule: str, fi, where: str, call: CallSym, site, p_df
     return raw, f"{call.meth}(value) = " + " / ".join(sorted(kinds))
 
 
+def _string_cast_violation(ctx: Ctx, rule: str, fi, where: str, frame, p_df: str) -> bool:
+    """the frame a cell text is read from is the frame parameter converted with polars' cast to String: the text is then polars' rendering
+    of the value, not Python's str(value) (positive evidence, reported); False if the frame is no such conversion"""
+    casts = [x for x in tparts(frame) if isinstance(x, CallSym) and x.meth == "cast" and x.args
+             and (path_of(x.args[0]).split(".")[-1] in ("String", "Utf8", "Categorical") or x.args[0] is str)]
+    if casts and p_df in roots(frame) and isinstance(frame, CallSym) and frame.meth in ("select", "with_columns", "cast"):
+        ctx.violation(rule, fi.short, "cell source: text from " + path_of(casts[0])[:60], where,
+                      f"_encode: the text of cell (i, j) is read from `{path_of(frame)[:90]}`: the frame is converted with polars' `{path_of(casts[0])[:50]}`, whose text for booleans, floats, "
+                      "dates and nested values differs from Python's str(value) (`true` vs `True`, ...); expected str() of the frame's own value, '' for null")
+        return True
+    return False
+
+
 def encode_index_agreement(ctx: Ctx, rule: str) -> None:
     """TableAttributes._encode, one generic row i and one generic column j: the cell built for (i, j) shows df.row(i)[j] ('' for null,
     else str(value)) and ends at col_widths[j]; i runs over all rows and j over all columns of the frame in order; the row's cells
@@ -1545,6 +1562,8 @@ def encode_index_agreement(ctx: Ctx, rule: str) -> None:
                 ok = False
                 ctx.gap(rule, f"_encode: the cell text `{path_of(txt)[:70]}` is not recognisable as a cell of the frame")
                 continue
+            if _string_cast_violation(ctx, rule, fi, where, cell_of(raw)[0], p_df):
+                continue
             tested = [val for k, (rec, val) in null_atoms.items() if path_of(rec[1]) == path_of(raw)]
             if not tested:
                 frame0 = cell_of(raw)[0]
@@ -1572,13 +1591,8 @@ def encode_index_agreement(ctx: Ctx, rule: str) -> None:
         base_frame = frame
         while isinstance(base_frame, CallSym) and base_frame.meth in ("fill_null", "clone", "rechunk") and isinstance(base_frame.recv, Sym):
             base_frame = base_frame.recv
-        casts = [x for x in tparts(frame) if isinstance(x, CallSym) and x.meth == "cast" and x.args
-                 and path_of(x.args[0]).split(".")[-1] in ("String", "Utf8", "Categorical") or (isinstance(x, CallSym) and x.meth == "cast" and x.args and x.args[0] is str)]
-        if casts and p_df in roots(frame) and isinstance(frame, CallSym) and frame.meth in ("select", "with_columns", "cast"):
+        if _string_cast_violation(ctx, rule, fi, where, frame, p_df):
             ok = False
-            ctx.violation(rule, fi.short, "cell source: text from " + path_of(casts[0])[:60], where,
-                          f"_encode: the text of cell (i, j) is read from `{path_of(frame)[:90]}`: the frame is converted with polars' `{path_of(casts[0])[:50]}`, whose text for booleans, floats, "
-                          "dates and nested values differs from Python's str(value) (`true` vs `True`, ...); expected str() of the frame's own value, '' for null")
         elif not (isinstance(base_frame, Init) and base_frame.path == p_df):
             ok = False
             ctx.gap(rule, f"_encode: the frame `{path_of(frame)[:60]}` the cell value is read from is not the frame parameter `{p_df}`")
@@ -2007,6 +2021,104 @@ def _removal_sets(fn) -> set[str]:
     return out or {"columns_to_remove"}
 
 
+def _removal_table(ctx: Ctx, rule: str, fi, rm: set) -> None:
+    """the statements of prepare_dataframe_for_body_encoding that build the set of removed columns, evaluated over a symbolic attributes object
+    (a helper whose result IS the set is inlined): on every path the set holds subline_by iff it is set, and page_by iff it is set and shown as
+    spanning rows (`not new_page or pageby_row != 'column'`); a path that does not consult a condition stands for both of its values"""
+    import itertools
+    declare(ctx)
+    pm = ctx.pm
+    fn = fi.node
+    ps = _pos_params(fi)
+    if len(ps) < 2:
+        return
+    p_attrs = ps[1]
+    idx = next((i for i, st in enumerate(fn.body) if (isinstance(st, ast.If) and any(isinstance(x, ast.Name) and x.id in rm for x in ast.walk(st.test)))
+                or any(isinstance(c, ast.Call) and isinstance(c.func, ast.Attribute) and c.func.attr in ("select", "drop") for c in ast.walk(st))), None)
+    if idx is None:
+        ctx.gap(rule, "prepare_dataframe_for_body_encoding: the statements that build the set of removed columns could not be delimited")
+        return
+    helpers = {c.func.attr for st in fn.body[:idx] for a in ast.walk(st) if isinstance(a, ast.Assign) and any(isinstance(t, ast.Name) and t.id in rm for t in a.targets)
+               for c in ast.walk(a.value) if isinstance(c, ast.Call) and isinstance(c.func, ast.Attribute) and isinstance(c.func.value, ast.Name) and c.func.value.id in ("self", "cls")}
+    adders = ("update", "add", "extend", "append", "union", "augBitOr", "augAdd")
+    try:
+        dt = TDT(pm, watch={"update", "add", "extend", "append", "union"}, inline=helpers)
+        leaves = run_block(dt, fn.body[:idx], sym_env(fi), fi)
+        cover(ctx, "prepare_dataframe_for_body_encoding (the statements that build the set of removed columns)", leaves)
+    except AnalysisError as e:
+        ctx.gap(rule, f"prepare_dataframe_for_body_encoding: the construction of the set of removed columns could not be evaluated: {e}")
+        return
+
+    def about(t, attr):
+        return isinstance(t, AttrSym) and t.attr == attr and isinstance(t.base, Init) and t.base.path == p_attrs
+    n = 0
+    reported = set()
+    for v, env, eff, outcome in leaves:
+        terms = [env.get(nme) for nme in rm] + [a for e in eff if e[0] == "call" and e[1] in adders for a in e[3]]
+        if is_opaque(*[t for t in terms if t is not None]):
+            ctx.gap(rule, "prepare_dataframe_for_body_encoding: the set of removed columns involves an expression the evaluator does not model")
+            continue
+        got = {attr for attr in ("subline_by", "page_by") if any(about(x, attr) for t in terms for x in tparts(t))}
+        known: dict = {}
+        undecided = None
+        for key, val in v.items():
+            rec = dt.cmp.get(key)
+            if rec is None:
+                continue
+            l, r = rec[1], rec[2]
+            for attr, name in (("subline_by", "sub"), ("page_by", "pb")):
+                if about(l, attr):
+                    if rec[0] == "is None":
+                        known[name] = not val
+                    elif rec[0] == "truth":
+                        known[name] = val
+                    else:
+                        undecided = key
+            if about(l, "new_page"):
+                if rec[0] == "truth":
+                    known["np"] = val
+                elif rec[0] in (ast.Eq, ast.Is) and isinstance(r, bool):
+                    known["np"] = val if r else not val
+                elif rec[0] in (ast.NotEq, ast.IsNot) and isinstance(r, bool):
+                    known["np"] = (not val) if r else val
+                else:
+                    undecided = key
+            if about(l, "pageby_row") or about(r, "pageby_row"):
+                other = r if about(l, "pageby_row") else l
+                if rec[0] in (ast.Eq, ast.NotEq) and other == "column":
+                    known["col"] = val if rec[0] is ast.Eq else not val
+                else:
+                    undecided = key
+        if undecided:
+            ctx.gap(rule, f"prepare_dataframe_for_body_encoding: the condition `{undecided[:60]}` on the grouping settings has an unrecognised form")
+            continue
+        n += 1
+        free = [k for k in ("sub", "pb", "np", "col") if k not in known]
+        for combo in itertools.product([True, False], repeat=len(free)):
+            w = dict(known)
+            w.update(dict(zip(free, combo)))
+            want = set()
+            if w["sub"]:
+                want.add("subline_by")
+            if w["pb"] and (not w["np"] or not w["col"]):
+                want.add("page_by")
+            if got == want:
+                continue
+            setting = f"subline_by {'set' if w['sub'] else 'unset'}, page_by {'set' if w['pb'] else 'unset'}, new_page={w['np']}, pageby_row{'==' if w['col'] else '!='}'column'"
+            for attr in sorted(want - got):
+                if ("kept", attr) not in reported:
+                    reported.add(("kept", attr))
+                    ctx.violation(rule, fi.short, f"removal set: {attr} columns kept", fi.where(fn.body[max(idx - 1, 0)]),
+                                  f"on the path [{_fmt(v)[:160]}] (which stands for: {setting}) the {attr} columns are NOT scheduled for removal although their values are shown "
+                                  "outside the table (heading / spanning rows): they are rendered a second time as table cells")
+            for attr in sorted(got - want):
+                if ("removed", attr) not in reported:
+                    reported.add(("removed", attr))
+                    ctx.violation(rule, fi.short, f"removal set: {attr} columns removed", fi.where(fn.body[max(idx - 1, 0)]),
+                                  f"on the path [{_fmt(v)[:160]}] (which stands for: {setting}) the {attr} columns are removed from the table although their values are not shown anywhere else: data is lost")
+    ctx.instance(rule, fi.where(), f"set of removed columns: {n} path(s); holds subline_by iff set, page_by iff set and (not new_page or pageby_row != 'column'): {not reported}")
+
+
 def column_removal(ctx: Ctx, rule: str) -> None:
     """prepare_dataframe_for_body_encoding: the displayed frame, the attribute matrices and col_rel_width must be cut at the positions
     the removed columns have in the ORIGINAL frame.  Structural / dataflow rule: constructs are recognised by role (tolerant of
@@ -2041,6 +2153,10 @@ def column_removal(ctx: Ctx, rule: str) -> None:
             if n_assign.get(e.id, 0) == 1:
                 return frame_kind(asg[e.id][0], depth + 1)
         return "?"
+
+    # 0. which columns are scheduled for removal: decision table over (subline_by set, page_by set, new_page, pageby_row)
+    if rule == "R02.5":                        # C02's clause "the columns consumed by page_by / subline_by are the only ones not rendered as cells"
+        _removal_table(ctx, rule, fi, rm)
 
     # 1. positions of removed columns
     pos_sites = []
